@@ -34,6 +34,7 @@ fn main() {
         }
         i += 2;
     }
+    *OUT_PATH.lock().unwrap() = out.clone();
     install_panic_hook();
     let t0 = std::time::Instant::now();
     let mut stats = Stats::default();
